@@ -142,7 +142,7 @@ class VcsMod(roundtrip.RTMod):
         p = self.pieces(I, st, base)
         i = I.deref_val(st, idx)
         if p is None or i[0] != "struct" or not i[1].startswith("core::ops::range::Range"):
-            return None
+            return super().index(I, n, base, idx, st)
         us = symregex.units_of(p)
         d = {k: I.deref_val(st, v) for k, v in i[2]}
         lo = as_slen(d["start"]) if "start" in d else ((), 0)
